@@ -203,7 +203,10 @@ func c15HKDF(c *Ctx) {
 	}
 	// empty salt -> digest-size zero bytes
 	okSalt := false
-	for _, site := range callsTo(h, "golang.org/x/crypto/hkdf.New") {
+	// hkdf.New(hash, secret, salt, info) or its two halves hkdf.Extract(hash, secret, salt) + Expand
+	saltSites := callsTo(h, "golang.org/x/crypto/hkdf.New")
+	saltSites = append(saltSites, callsTo(h, "golang.org/x/crypto/hkdf.Extract")...)
+	for _, site := range saltSites {
 		salt := site.Common().Args[2]
 		phi, isPhi := guard.Strip(salt).(*ssa.Phi)
 		if !isPhi || len(phi.Edges) != 2 {
